@@ -616,7 +616,13 @@ func (w *watch) update(dirErrors map[string]error, removed ...string) bool {
 
 	for dir, ok = range w.tracked {
 		if ok {
-			continue
+			// a directory given as a symbolic link can go away without
+			// an event: what is being watched is what the link points to
+			if _, err = os.Lstat(dir); !os.IsNotExist(err) {
+				continue
+			}
+			_ = w.watcher.Remove(dir)
+			update = true
 		}
 
 		err = w.watcher.Add(dir)
